@@ -19,6 +19,7 @@ import NumbersModel.Lemmas.Decimal128
 import NumbersModel.Lemmas.RowStorage
 import NumbersModel.Lemmas.CellRecord
 import NumbersModel.Lemmas.TablePipeline
+import NumbersModel.Lemmas.TrDec128
 namespace NumbersModel.Props.C01
 open NumbersModel NumbersModel.Decimal128 NumbersModel.RowStorage NumbersModel.CellRecord
 open NumbersModel.TablePipeline
@@ -258,3 +259,63 @@ example : ((saveTable tallGrid).bind fun s =>
     = .ok (viewT ⟨.text, [], ['B'], none, {}⟩) := by decide +kernel
 
 end NumbersModel.Props.C01
+
+/-! ## The decimal128 clause over the reader translated from the Python source
+
+`Gen/TrDec128.lean` is regenerated by `harness/py2lean.py` from `cell._unpack_decimal128` in the working tree on every
+check run (byte reads, `& << >> |`, the `for i in range(13, -1, -1)` loop, the sign test: everything before the final
+`float(f"{mantissa}E{exp}")`); `Lemmas/TrDec128.lean` proves it equal to `Decimal128.unpack` for every buffer, short
+ones included. -/
+namespace NumbersModel.Props.C01.Src
+open NumbersModel NumbersModel.Decimal128 NumbersModel.Gen.T NumbersModel.Translated
+
+/-- for every sign, every coefficient below 2^113 and every exponent whose biased value fits 14 bits, the translated
+    reader applied to the packed payload hands exactly that sign, that (signed) mantissa and that exponent to the final
+    `float(f"{mantissa}E{exp}")`. -/
+theorem src_d128_roundtrip (d : Dec) (h : C01.InFormat d) :
+    (pack d).bind unpack_decimal128 = .ok (decView d) := by
+  have hf : unpack_decimal128 = fun b => (Decimal128.unpack b).map decView := funext unpack_decimal128_eq_model
+  obtain ⟨p, hp, _⟩ := C01.d128_pack_total d h
+  have hrt := C01.d128_roundtrip d h
+  rw [hp] at hrt ⊢
+  have hu : Decimal128.unpack p = .ok d := hrt
+  show unpack_decimal128 p = _
+  rw [hf]
+  simp only [hu, Except.map]
+
+/-- the same with the writer translated from the source as well (`_pack_decimal128` from the decimal triple on): the two
+    translated halves compose to the identity on the whole format. -/
+theorem src_d128_roundtrip_both (d : Dec) (h : C01.InFormat d) :
+    (pack_decimal128 (if d.sign then 1 else 0) (d.coeff : Int) d.exp).bind unpack_decimal128 = .ok (decView d) := by
+  rw [pack_decimal128_eq_model]
+  exact src_d128_roundtrip d h
+
+/-- the translated writer is total on the format and produces 16 bytes. -/
+theorem src_d128_pack_total (d : Dec) (h : C01.InFormat d) :
+    ∃ b, pack_decimal128 (if d.sign then 1 else 0) (d.coeff : Int) d.exp = .ok b ∧ b.length = 16 := by
+  rw [pack_decimal128_eq_model]
+  exact C01.d128_pack_total d h
+
+/-- the translated reader raises IndexError on a buffer shorter than 16 bytes and nothing else on any buffer. -/
+theorem src_d128_unpack_errors (buf : Bytes) :
+    (buf.length < 16 → unpack_decimal128 buf = .error .IndexError) ∧
+    (16 ≤ buf.length → ∃ r, unpack_decimal128 buf = .ok r) := by
+  rw [unpack_decimal128_eq_model]
+  constructor
+  · intro h
+    rw [unpack_short buf h]; rfl
+  · intro h
+    have h15 := pyIndex_nat buf 15 (by omega)
+    have h14 := pyIndex_nat buf 14 (by omega)
+    have e15 : ((15 : Nat) : Int) = 15 := rfl
+    have e14 : ((14 : Nat) : Int) = 14 := rfl
+    rw [e15] at h15; rw [e14] at h14
+    simp only [Decimal128.unpack, h15, h14, bind, Except.bind, pure, Except.pure, Except.map]
+    exact ⟨_, rfl⟩
+
+example : unpack_decimal128 [12, 0, 0, 0, 0, 0, 0, 0, 0, 0, 0, 0, 0, 0, 0x40, 0xB0] = .ok (1, -12, 0) := by decide +kernel
+example : pack_decimal128 1 12 0 = .ok [12, 0, 0, 0, 0, 0, 0, 0, 0, 0, 0, 0, 0, 0, 0x40, 0xB0] := by decide +kernel
+example : pack_decimal128 0 1 (-7000) = .error .ValueError ∧ pack_decimal128 0 (2 ^ 128) 0 = .error .IndexError := by
+  decide +kernel
+
+end NumbersModel.Props.C01.Src
